@@ -112,6 +112,9 @@ func (m c20) genShape(r *RNG) c20shape {
 			if r.Chance(3, 4) {
 				f.JSON = sp(fmt.Sprintf("n%d", i)) // mostly unique names, so that valid shapes are common
 			}
+			if r.Chance(1, 12) {
+				f.JSON = sp(*f.JSON + r.Pick([]string{",omitempty", ",string", ",", ",omitempty,string"})) // encoding/json options
+			}
 		}
 		// api tag and Go type
 		switch r.Intn(12) {
@@ -292,7 +295,37 @@ func (m c20) Case(c *Ctx, r *RNG) {
 }
 
 func (m c20) run(c *Ctx, sh c20shape, r *RNG) {
-	m.runType(c, sh.build(), sh.read(), jsonStr(sh), r)
+	st, exp := sh.build(), sh.read()
+	// a json tag with options after a comma ("title,omitempty"): whether the field is named by the whole tag or by
+	// the part before the comma is the library's choice; it has to make the SAME choice everywhere. The reading
+	// that BuildType reports is the one everything else is held to.
+	hasOpt := false
+	for _, f := range sh.Fields {
+		if f.JSON != nil && strings.Contains(*f.JSON, ",") {
+			hasOpt = true
+		}
+	}
+	if hasOpt {
+		c.Count("shapes_with_json_tag_options")
+		stripped := sh
+		stripped.Fields = append([]c20field{}, sh.Fields...)
+		for i, f := range stripped.Fields {
+			if f.JSON != nil {
+				stripped.Fields[i].JSON = sp(strings.SplitN(*f.JSON, ",", 2)[0])
+			}
+		}
+		alt := stripped.read()
+		if len(alt.problems) == 0 {
+			var typ jsonapi.Type
+			var err error
+			if pi := Guard(func() { typ, err = jsonapi.BuildType(reflect.New(st).Interface()) }); pi == nil && err == nil &&
+				c20compareType(alt, typ.Name, typ.Attrs, typ.Rels) == "" && c20compareType(exp, typ.Name, typ.Attrs, typ.Rels) != "" {
+				exp = alt
+				c.Count("json_tag_options_read_as_name_before_comma")
+			}
+		}
+	}
+	m.runType(c, st, exp, jsonStr(sh), r)
 }
 
 // Struct types written in Go source (what reflect.StructOf cannot make): the ID and a field promoted from an
@@ -468,6 +501,11 @@ func (m c20) runType(c *Ctx, st reflect.Type, exp c20expect, desc string, r *RNG
 				res.Set("id", "some-id")
 				if g, _ := res.Get("id").(string); g != "some-id" {
 					c.Violate("id-not-stored", "Set(id) then Get(id) = %v; shape %s", res.Get("id"), desc)
+				}
+				if ider, ok := res.(interface{ GetID() string }); ok {
+					if g := ider.GetID(); g != "some-id" {
+						c.Violate("id-not-stored/GetID", "Set(id) then GetID() = %q; shape %s", g, desc)
+					}
 				}
 			}); pi != nil {
 				fail("Set/Get(id)", pi)
